@@ -18,6 +18,10 @@ CLAIMED = {
          "static analysis: interval arithmetic over type ranges on MIR paths, float-constant guard decoding, comparator whitelist"),
  'C05': ("decides for every valid document, on all CFG paths of every entry-reading loop and iterator body: cursor initial forms match the layout (4n / 8n after the entry words, kind from the dominating header tag), entry and payload cursors advance in step with the entries actually read from the buffer they index, sub-values are re-wrapped exactly, negative key-path indices use len+idx only when provably negative, the name lookup exits early only on an exact match and latches the first case-insensitive match, type names follow the tag tables, headers are read at stepped offsets only for container entries. Equality with the tree answer for every accessor/argument is NOT decided",
          "static analysis: path-sensitive dataflow over loop bodies (affine cursor deltas), interval facts, table extraction"),
+ 'C03': ("decides for all inputs: every byte that RFC 8259 requires to be escaped takes an escape path (exhaustive over the 256 byte values by interval sets), escape strings denote their byte, pending ordinary bytes are flushed before each escape, pretty and compact renderings push the same non-whitespace constants on all path pairs differing only in the flag, numbers are formatted by itoa / ryu::<f64> without conversion, renderer cursors follow the layout. That the text denotes the same document as a whole is NOT decided",
+         "static analysis: switch/range table extraction with interval sets over byte values, path-pair comparison, callee whitelists"),
+ 'C04': ("decides for all inputs: rank constants and the entry-tag->rank table follow the documented ranking, every header-kind pair has the outcome the ranking demands with antisymmetric constants and (left,right) argument order, same-kind scalars compare decoded numbers / strings left-vs-right, no lossy numeric comparison (R18.4), each argument of compare is dispatched on its own representation, both sides' cursors advance by their own entries, tie-break by length. Order laws as such and Equal<=>value-equal are NOT decided",
+         "static analysis: table extraction from MIR switches, path enumeration, provenance of comparator arguments, walker dataflow"),
 }
 NOT_APPLICABLE = {
 }
